@@ -89,6 +89,10 @@ fn main() {
     let args = parse_args();
     mb2_model::panics::install_hook();
     known::load(&args.verif.join("known_findings.json"));
+    if args.worker.is_some() || args.replay_one.is_some() {
+        // use the library once on a fixed decoy before any case (see model::warm)
+        let _ = mb2_model::panics::catch(mb2_model::warm::warmup);
+    }
     if let Some(p) = &args.replay_one {
         std::process::exit(replay_one(&args, p));
     }
